@@ -51,8 +51,47 @@ func toObj(v ref.Val) slip.Object {
 			l[i] = toObj(e)
 		}
 		return l
+	case "o":
+		obj, err := objFor(v.S)
+		if err != nil {
+			return slip.String("<unreadable object source>")
+		}
+		return obj
 	}
 	panic("bad value kind " + v.K)
+}
+
+// objects of kind "o" are given as slip source text (vectors, arrays, floats,
+// dotted lists, quote forms ...). The oracle treats them as opaque: only ~A
+// and ~S may meet them, and those are tied to princ / prin1.
+type objEntry struct {
+	obj slip.Object
+	err *sl.Err
+}
+
+var objCache = map[string]objEntry{}
+
+func objFor(src string) (slip.Object, *sl.Err) {
+	if e, ok := objCache[src]; ok {
+		return e.obj, e.err
+	}
+	obj, err := sl.Eval(slip.NewScope(), src)
+	objCache[src] = objEntry{obj, err}
+	return obj, err
+}
+
+func badObject(args []ref.Val) bool {
+	for _, a := range args {
+		if a.K == "o" {
+			if _, err := objFor(a.S); err != nil {
+				return true
+			}
+		}
+		if badObject(a.L) {
+			return true
+		}
+	}
+	return false
 }
 
 func valKey(v ref.Val) string {
@@ -129,7 +168,7 @@ func checkToString(x *fw.Ctx, v ref.Val) {
 			continue
 		}
 		got, err := toString(fn+"-to-string", v)
-		kind := map[string]string{"i": "integer", "s": "string", "c": "character", "y": "symbol", "l": "list"}[v.K]
+		kind := map[string]string{"i": "integer", "s": "string", "c": "character", "y": "symbol", "l": "list", "o": "object"}[v.K]
 		switch {
 		case err != nil:
 			x.Fail("fail="+fn+"-to-string-error kind="+kind, "(%s-to-string %s) => %s", fn, showVal(v), err)
@@ -233,6 +272,9 @@ func variants(ctl string, args []ref.Val) []string {
 
 func judge(ctl string, args []ref.Val) verdict {
 	thePrinter.err = nil
+	if badObject(args) {
+		return verdict{kind: "unjudged", reason: "object-source-error"}
+	}
 	want, used, err := ref.Render(ctl, args, thePrinter, ref.Opts{})
 	if err != nil {
 		re, _ := err.(*ref.Error)
@@ -293,6 +335,8 @@ func showVal(v ref.Val) string {
 		return "#\\" + v.S
 	case "y":
 		return "'" + v.S
+	case "o":
+		return v.S
 	}
 	if len(v.L) == 0 {
 		return "nil"
@@ -479,6 +523,8 @@ func coverArgs(x *fw.Ctx, args []ref.Val) {
 			x.Cover("arg:character")
 		case "y":
 			x.Cover("arg:symbol")
+		case "o":
+			x.Cover("arg:object")
 		case "l":
 			x.Cover(fmt.Sprintf("arg:list-len%d-depth%d", min(len(v.L), 5), depth))
 			for _, e := range v.L {
